@@ -37,3 +37,49 @@ Proof.
   unfold NL. rewrite removelast_last. rewrite <- !app_assoc. reflexivity.
 Qed.
 Print Assumptions spec_spell_compositional.
+
+(* ---- the real block parser (tables regenerated from parser.c on every run) *)
+From Coq Require Import ZArith.
+From MMD.lib Require Import Lemon BlockComp.
+From MMD.gen Require Import ParserTables.
+From MMD.model Require Import BlockLang.
+From MMD.proofs Require Import BlockCompProofs.
+Local Open Scope Z_scope.
+
+(* [closed w]: w is a sequence of paragraphs, ATX / Setext headings, rules, fenced code blocks and block
+   quotes (as line kinds), each followed by one or more empty lines.  For ANY two such documents, of any
+   length, the top-level blocks the parser creates for their concatenation (the sequence of 'block ::= X'
+   reductions in its event trace) are the blocks of the first followed by the blocks of the second: what
+   comes before or after a closed block never changes how it is segmented. *)
+Theorem blocks_compositional :
+  forall u v, closed dstep FIN u -> closed dstep FIN v -> bc_over line_kinds u -> bc_over line_kinds v ->
+  exists x y,
+    bc_F parser_tables NT_block base u = Some x /\ bc_F parser_tables NT_block base v = Some y /\
+    bc_F parser_tables NT_block base (u ++ v) = Some (x ++ y).
+Proof. exact (comp parser_tables NT_block dstep FIN line_kinds Hset Sset block_checks). Qed.
+Print Assumptions blocks_compositional.
+
+(* F is what the driver does: for a non-empty closed document it is the list of block rules among the
+   events of parse_document (all tokens, then end of input), and no error event occurs *)
+Theorem block_trace_is_parse_document :
+  forall w x, w <> [] -> drun dstep 0%nat w = Some FIN -> bc_over line_kinds w ->
+  bc_F parser_tables NT_block base w = Some x ->
+  exists stk ev, parse_document parser_tables w = Ok (stk, ev) /\ existsb is_bad ev = false /\
+                 brules parser_tables NT_block ev = x.
+Proof. exact (F_is_parse_document parser_tables NT_block dstep FIN line_kinds Hset Sset block_checks). Qed.
+Print Assumptions block_trace_is_parse_document.
+
+(* non-vacuity: a paragraph of two lines, a rule, a fenced block containing a heading-like line, a quote *)
+Example closed_sample :
+  let w := [K_PLAIN; K_PLAIN; K_EMPTY; K_HR; K_EMPTY; K_EMPTY; K_FENCE_BACKTICK_START_3; K_ATX_1; K_EMPTY; K_FENCE_BACKTICK_3; K_EMPTY;
+            K_BLOCKQUOTE; K_PLAIN; K_EMPTY] in
+  drun dstep 0%nat w = Some FIN /\
+  bc_F parser_tables NT_block base w =
+  Some [R_block_para; R_block_empty; R_block_LINE_HR; R_block_empty; R_block_fenced_block; R_block_empty; R_block_blockquote; R_block_empty].
+Proof. vm_compute. auto. Qed.
+
+(* and the restriction to closed blocks matters: two paragraphs without an empty line between them are one *)
+Example unclosed_blocks_merge :
+  bc_F parser_tables NT_block base [K_PLAIN] = Some [R_block_para] /\
+  bc_F parser_tables NT_block base ([K_PLAIN] ++ [K_PLAIN]) = Some [R_block_para].
+Proof. vm_compute. auto. Qed.
